@@ -6,6 +6,12 @@ HERE = os.path.dirname(os.path.dirname(os.path.abspath(__file__)))
 
 # property -> (technique, level text, level note, design ref)
 CLAIMS = {
+    "C01": ("site-exhaustive discipline checks over SSA: confinement of Segment.data, checked-result dominance, provenance classification of every raw accessor call against dominating regionInBounds/dataAddress/primitiveElem guards, construction-site guards, normal forms of the bounds kernel, panic census over the call graph",
+            "discipline-based necessary condition of memory safety of the read path, exhaustive over all ~300 sites (every raw access justified by a dominating guard on the same segment and address, every object constructed under a region check, kernel functions equal to their confirmed normal form); not a value-level proof of extents",
+            "trusts x/tools v0.29.0; the object invariant (off,size inside seg) is assumed once established at construction; guards matched on rendered SSA expressions", "DESIGN.md 3 C01"),
+    "C02": ("SSA dominance (charge before return, depth decrement under a non-zero proof), who-may-call, atomic-only use of the budget field, structure of the CAS retry loop, normal forms of readSize",
+            "necessary conditions of the traversal/depth bounds decided over every site (every returned struct/list charged with its own readSize, every depthLimit store classified, budget only touched atomically); not the accounting equation, not recursion depth of consumers",
+            "trusts x/tools v0.29.0", "DESIGN.md 3 C02"),
     "C06": ("must-pass-through / at-most-once path queries over go/cfg; who-may-call over resolved callees; path-sensitive linear-resource dataflow for Recv/Returner; SSA dominating-guard atoms",
             "structural necessary conditions of exactly-once, in-order RPC delivery, decided exhaustively over every CFG path and call site of today's tree (single dispatcher, one discharge per answer, Returner consumed exactly once, id reuse and id validation guards, handler lock discipline); it is not a proof over message histories",
             "trusts go/types, go/cfg, go/ssa of x/tools v0.29.0; lock identity per class; dynamic calls are not followed", "DESIGN.md 3 C06"),
